@@ -60,4 +60,57 @@ Section Fs.
     unfold fs_isfile. destruct (fs_lookup fs p) as [c|]; split; intro H; eauto; try discriminate.
     destruct H as [c H]. discriminate.
   Qed.
+  (* ---- writes restricted to the files that may be written (fs_keep) ---------------------------------------------- *)
+  Lemma in_map_fst_filter (f : path * content -> bool) l x : In x (map fst (filter f l)) -> In x (map fst l).
+  Proof.
+    induction l as [|a t IH]; simpl; [tauto|]. destruct (f a); simpl; intros H; [destruct H; auto|auto].
+  Qed.
+
+  Lemma NoDup_map_fst_filter (f : path * content -> bool) l : NoDup (map fst l) -> NoDup (map fst (filter f l)).
+  Proof.
+    induction l as [|a t IH]; simpl; intro H; [constructor|]. inversion H; subst.
+    destruct (f a); simpl; [constructor; [intro Q; apply H2; eapply in_map_fst_filter; eauto|auto]|auto].
+  Qed.
+
+  Lemma keep_skipped ow fs (l : list (path * content)) p : fs_isfile fs p && negb ow = true -> ~ In p (map fst (filter (fs_keep ow fs) l)).
+  Proof.
+    intros H Q. apply in_map_iff in Q. destruct Q as ([q c] & E & Hin). simpl in E. subst q.
+    apply filter_In in Hin. destruct Hin as [_ K]. unfold fs_keep in K. simpl in K. rewrite H in K. discriminate.
+  Qed.
+
+  Lemma keep_kept ow fs (l : list (path * content)) p c : In (p, c) l -> fs_isfile fs p && negb ow = false -> In (p, c) (filter (fs_keep ow fs) l).
+  Proof. intros Hin H. apply filter_In. split; [exact Hin|]. unfold fs_keep. simpl. rewrite H. reflexivity. Qed.
+
+  Lemma keep_ext ow (a b : fsmap content) (l : list (path * content)) :
+    (forall w, In w l -> fs_isfile a (fst w) = fs_isfile b (fst w)) -> filter (fs_keep ow a) l = filter (fs_keep ow b) l.
+  Proof.
+    induction l as [|w t IH]; simpl; intro H; [reflexivity|].
+    rewrite IH by (intros; apply H; auto).
+    assert (E : fs_keep ow a w = fs_keep ow b w) by (unfold fs_keep; rewrite (H w (or_introl eq_refl)); reflexivity).
+    rewrite E. reflexivity.
+  Qed.
+
+  Lemma keep_overwrite fs (l : list (path * content)) : filter (fs_keep true fs) l = l.
+  Proof.
+    induction l as [|w t IH]; simpl; [reflexivity|]. rewrite IH.
+    assert (E : fs_keep true fs w = true) by (unfold fs_keep; simpl; rewrite andb_false_r; reflexivity).
+    rewrite E. reflexivity.
+  Qed.
+
+  (* the directory after the kept writes: an existing file is untouched (overwrite off), a planned missing one is written *)
+  Lemma lookup_kept_writes_existing ow fs (l : list (path * content)) p :
+    fs_isfile fs p && negb ow = true -> fs_lookup (fs_writes fs (filter (fs_keep ow fs) l)) p = fs_lookup fs p.
+  Proof. intro H. apply lookup_writes_notin. apply keep_skipped. exact H. Qed.
+
+  Lemma lookup_kept_writes_new ow fs (l : list (path * content)) p c :
+    NoDup (map fst l) -> In (p, c) l -> fs_isfile fs p && negb ow = false ->
+    fs_lookup (fs_writes fs (filter (fs_keep ow fs) l)) p = Some c.
+  Proof.
+    intros Hnd Hin H. apply lookup_writes_in; [apply NoDup_map_fst_filter; exact Hnd|apply keep_kept; assumption].
+  Qed.
+
+  Lemma isfile_write_other fs (w : path * content) q : q <> fst w -> fs_isfile (fs_write fs w) q = fs_isfile fs q.
+  Proof.
+    intro H. unfold fs_isfile, fs_write. destruct w as [p c]. simpl in *. rewrite path_eqb_neq by exact H. reflexivity.
+  Qed.
 End Fs.
